@@ -20,6 +20,7 @@ mod c15;
 mod c17;
 mod c19;
 mod c20;
+mod c21w;
 
 use report::Report;
 
@@ -130,7 +131,12 @@ fn real_main() {
         }
         "C17" => {
             rep = Report::new("C17", &o.tier, o.seed, "(script of underlying poll_next results, sequence of recv/wait_for/next calls with poll budgets); non-trivial = script and call sequence both of length >= 2; distinct by (script, calls)");
-            match &replay_lines { Some(l) => c17::replay(&mut drv, &mut rep, l), None => { c17::run(&o, &mut drv, &mut rep); let again = rep.first_ids.clone(); if !again.is_empty() && !matches!(o.prop.as_str(), "C09" | "C10") { rep.hist("purity-probe:first-cases-rerun-at-end"); c17::replay(&mut drv, &mut rep, &again); } } }
+            match &replay_lines { Some(l) => { c17::replay(&mut drv, &mut rep, l); c21w::replay(&mut drv, &mut rep, l); }, None => { c17::run(&o, &mut drv, &mut rep); c21w::run(&o, &mut drv, &mut rep); let again = rep.first_ids.clone(); if !again.is_empty() && !matches!(o.prop.as_str(), "C09" | "C10") { rep.hist("purity-probe:first-cases-rerun-at-end"); c17::replay(&mut drv, &mut rep, &again); c21w::replay(&mut drv, &mut rep, &again); } } }
+        }
+        "CW" => {
+            // the relay-wrapper / message-id stream on its own (it also runs as part of C17)
+            rep = Report::new("CW", &o.tier, o.seed, "tags (tag, params); message ids (instance, sender, receiver, tag); scripts of send / ask / skipped feed / poll / clock operations of up to 3 parties on plain, RelayStats-wrapped and EvilMessageRelay connections with (drop rules, injections); non-trivial = scripts of at least two operations, every tag / id case; distinct by request");
+            match &replay_lines { Some(l) => c21w::replay(&mut drv, &mut rep, l), None => { c21w::run(&o, &mut drv, &mut rep); let again = rep.first_ids.clone(); if !again.is_empty() { rep.hist("purity-probe:first-cases-rerun-at-end"); c21w::replay(&mut drv, &mut rep, &again); } } }
         }
         "C20" => {
             rep = Report::new("C20", &o.tier, o.seed, "square matrices over the secp256k1 scalar field given as (n, n*n entries); each case runs determinant and inverse; non-trivial = n >= 2; distinct by (stream, entries)");
@@ -138,6 +144,7 @@ fn real_main() {
         }
         p => { eprintln!("unknown property {p}"); std::process::exit(2); }
     }
+    rep.drain_outbuf();
     let mut j = rep.to_json();
     j["driver_requests"] = drv.requests.into();
     j["oracle_queries"] = drv.oracle_queries.into();
